@@ -385,7 +385,7 @@ func c08Gen(r *common.Rand, reg c14Registry, kf03Open bool, realClock bool, firs
 				}
 			}}
 		if all {
-			req.crashPoints = []string{"rows.clear.afterClose", "disk.nuke.afterRemove", "disk.open.afterOpen"}
+			req.crashPoints = []string{"rows.clear.beforeWrite", "rows.clear.afterWrite"}
 		}
 		return req
 	default:
